@@ -13,6 +13,9 @@ import (
 	"encoding/json"
 	"errors"
 	"fmt"
+	"go/ast"
+	"go/printer"
+	"go/token"
 	"os"
 	"path/filepath"
 	"sort"
@@ -22,6 +25,7 @@ import (
 
 	"verif/checker/internal/engine"
 	"verif/checker/internal/load"
+	"verif/checker/internal/normal"
 	"verif/checker/internal/peg"
 	"verif/checker/internal/regions"
 	"verif/checker/internal/report"
@@ -116,6 +120,48 @@ func main() {
 			}
 		}
 		fmt.Println("well-formedness:", facts.WellFormed())
+	case args[0] == "dump-funcs":
+		// the table of known functions for internal/normal (regenerate after a fix: commit in /repo)
+		os.Setenv("VERIF_NO_NORMALISE", "1")
+		p := mustLoad()
+		var keys []string
+		for _, f := range p.Files {
+			for _, d := range f.Decls {
+				if fd, ok := d.(*ast.FuncDecl); ok {
+					keys = append(keys, normal.Key(fd))
+				}
+			}
+		}
+		sort.Strings(keys)
+		fmt.Println("# functions of the tree the rules were confirmed on; anything else is a helper that internal/normal expands")
+		last := ""
+		for _, k := range keys {
+			if k != last {
+				fmt.Println(k)
+			}
+			last = k
+		}
+	case args[0] == "normal":
+		// show what the normaliser does on the current tree; with a function name, print its normalised source
+		p := mustLoad()
+		if p.Normal == nil {
+			fmt.Println("normaliser disabled")
+			return
+		}
+		fmt.Printf("candidates=%v\nexpanded=%v\nremoved=%v\nrounds=%d\n", p.Normal.Candidates, p.Normal.Expanded, p.Normal.Removed, p.Normal.Rounds)
+		for _, s := range p.Normal.Skipped {
+			fmt.Println("skipped:", s)
+		}
+		if len(args) > 1 {
+			for _, f := range p.Files {
+				for _, d := range f.Decls {
+					if fd, ok := d.(*ast.FuncDecl); ok && normal.Key(fd) == args[1] {
+						printer.Fprint(os.Stdout, token.NewFileSet(), fd)
+						fmt.Println()
+					}
+				}
+			}
+		}
 	case args[0] == "list":
 		for _, id := range propIDs() {
 			fmt.Println(id, strings.Join(properties[id].Rules, " "))
